@@ -99,6 +99,7 @@ def defaultsStep (_ : Unit) (line : String) : Unit × String :=
   | ["emu", n, ctx] =>
     -- "pending" = another signal is blocked and pending meanwhile: it does not matter to the outcome
     match parseInt? n, (match ctx with | "normal" => some Default.Ctx.normal | "pending" => some Default.Ctx.normal
+                                       | "group" => some Default.Ctx.normal   -- with a bystander in the same process group: no matter
                                        | "handler" => some .inHandler
                                        | "cond" => some .inHandler | _ => none) with
     | some n, some c =>
